@@ -201,6 +201,11 @@ func (e *Encoder) binop(op token.Token, x, y string, t types.Type, yt types.Type
 			case token.MUL:
 				return fmt.Sprintf("(bvmul %s %s)", x, y), nil
 			case token.QUO:
+				if e.absDiv {
+					// division treated as an uninterpreted function (only congruence is needed)
+					e.notes["division abstracted as an uninterpreted function in this function (option divabs)"] = true
+					return e.uf(fmt.Sprintf("div.abs.%d.%v", w, signed), []string{e.sortOf(t), e.sortOf(t)}, e.sortOf(t), x, y), nil
+				}
 				if signed {
 					return fmt.Sprintf("(bvsdiv %s %s)", x, y), nil
 				}
